@@ -49,7 +49,10 @@ def compare(frames, truths, payload):
                 if v is not None and [f.ect_0_count, f.ect_1_count, f.ect_ce_count] != v:
                     return f"frame {i} (ACK): ECN counts {[f.ect_0_count, f.ect_1_count, f.ect_ce_count]} != {v}"
                 continue
-            got = getattr(f, k)
+            got = getattr(f, k, UNOBSERVABLE)
+            if got is UNOBSERVABLE:         # the frame object has no attribute of this name (renamed by a refactoring, or no longer kept): this field cannot be observed
+                UNOBSERVED[(kind, k)] = UNOBSERVED.get((kind, k), 0) + 1
+                continue
             if k == "ack_ranges":
                 got = [list(x) for x in got]
             if isinstance(v, (bytes, bytearray)):
@@ -60,6 +63,10 @@ def compare(frames, truths, payload):
     if tot != len(payload):
         return f"frame lengths add up to {tot}, payload has {len(payload)} bytes"
     return None
+
+
+UNOBSERVABLE = object()
+UNOBSERVED = {}
 
 
 def check_arbitrary(frames, payload):
@@ -238,7 +245,7 @@ def _eval(case, parse_frames, sm, seed):
             outcomes[oc] = outcomes.get(oc, 0) + 1
             classes.add((case["kind"], min(len(payload), 3) if len(payload) < 3 else "3+", payload[:1].hex(), oc))
     res = {"units": units, "classes": sorted(classes, key=repr)[:6000], "cls": [case["id"]], "nontrivial": units > 0,
-           "mon": {"parse_frames.calls": units, "max_steps_x100_per_byte": int(maxratio * 100)},
+           "mon": {"parse_frames.calls": units, "max_steps_x100_per_byte": int(maxratio * 100), "fields_not_observable": sum(UNOBSERVED.values())},
            "tags": [f"{case['kind']}:{k}" for k in outcomes],
            "sample": {"case": case["id"], "payloads": units, "outcomes": outcomes or "all compared with ground truth", "max_steps_per_byte": round(maxratio, 1)}}
     if bad:
